@@ -476,6 +476,7 @@ type node struct {
 	list  *grpc.VerifConnectionList
 	peers []*pconn
 	cur   string // description of the message being handled (for witnesses)
+	from  *pconn // the connection the message being handled arrived on (nil: the node acts on its own, e.g. gossip tick)
 
 	dagXor  hash.SHA256Hash
 	dagSet  map[hash.SHA256Hash]bool // payload hashes of the transactions in the DAG
@@ -541,6 +542,9 @@ func (n *node) onSend(c *pconn, envelope interface{}) error {
 	n.r.Count("captured/"+typ+"/"+c.kind, 1)
 	n.r.Count("envelopes_captured", 1)
 	n.r.Count("bytes_scanned", len(wire))
+	if n.from != nil && n.from != c {
+		n.r.Count("sent_over_another_connection_than_the_message_came_in_on/"+typ, 1)
+	}
 
 	// taint scan over the wire bytes
 	hits := n.w.scan(wire)
@@ -557,6 +561,7 @@ func (n *node) onSend(c *pconn, envelope interface{}) error {
 		}
 		n.r.Count("private_marker_hits/"+typ+"/"+relation(c, t), 1)
 		witness := map[string]any{"node": n.name, "node_did": n.id.String(), "peer_kind": c.kind, "peer": c.conn.Peer().String(), "peer_authenticated_truth": c.truthAuth,
+			"sent_over_the_connection_the_query_arrived_on": n.from == nil || n.from == c,
 			"envelope_type": typ, "transaction": t.ref(), "transaction_class": t.class, "participants": keys(t.listed), "while_handling": n.cur,
 			"envelope_hex_head": hex.EncodeToString(wire[:min(len(wire), 200)])}
 		if typ != "TransactionPayload" {
@@ -586,6 +591,10 @@ func (n *node) onSend(c *pconn, envelope interface{}) error {
 			n.r.Violation("C15/leak/TransactionPayload/sender-not-listed", fmt.Sprintf("private payload (%s) sent by node %s that is not on the participant list itself (to listed peer %s)", t.class, n.name, c.kind), witness)
 		default:
 			n.r.Count("private_payload_delivered_to_listed_peer_by_listed_node", 1)
+			if n.from != nil && n.from != c {
+				// the property constrains the connection a payload leaves on, not that it is the one the query came in on
+				n.r.Unspecified("private payload answered over another authenticated connection of a listed participant than the one that asked")
+			}
 		}
 	}
 
@@ -752,6 +761,8 @@ func (n *node) deliver(c *pconn, env *v2.Envelope, label string) (herr error, pa
 	}
 	typ := envType(in)
 	n.cur = fmt.Sprintf("%s from %s: %s", typ, c.kind, label)
+	n.from = c
+	defer func() { n.from = nil }()
 	// hashes of interest for the API comparison: everything this message could cause to be stored
 	var interest []hash.SHA256Hash
 	if tp := in.GetTransactionPayload(); tp != nil {
@@ -913,6 +924,7 @@ func TestCheck(t *testing.T) {
 		"Further case families: known transactions re-delivered in TransactionList messages (conversation kind, state of the known transaction, payload variant, stored before/after); " +
 		"transactions re-using the payload hash of a private transaction under the sender's own participant list (variant, querying peer, response); " +
 		"CreateTransaction over participant resolution/key situations (list shape, outcome) followed by every query type; payload queries while the node's own DID document is deactivated/unresolvable/keyless; " +
+		"connection lists in which several live connections share a self-asserted peer ID and/or a node DID (kind of the twin connection, registration order / reconnect history, querying connection, query type, transaction, response, connection the payload went to); " +
 		"stream set-up on a node behind a TLS terminator: real connection manager + offloading interceptor + tlsAuthenticator + v2 stream over a loopback socket (terminator style, certificate header values sent by the client, node DID headers; result, identity of the connection, answer to a payload query read off the wire). " +
 		"A case is non-trivial when the addressed node holds at least one private payload (or, for authenticator cases, a certificate was evaluated); distinct by the tuple above.")
 	r.Require(r.Pick(500, 5000), r.Pick(80, 150))
@@ -942,6 +954,9 @@ func TestCheck(t *testing.T) {
 		creation(w, nodes)
 		servingSituations(nodes[0])
 		servingSituations(nodes[3])
+		for _, n := range nodes {
+			sharedIdentity(n)
+		}
 		for _, n := range nodes {
 			queries(n, "after-inbound")
 		}
@@ -989,6 +1004,10 @@ func TestCheck(t *testing.T) {
 	if r.Get("stream_setup/inconclusive") == 0 && (r.Get("stream_setup_positive_control") == 0 || r.Get("stream_setup_identity/no-connection") == 0) {
 		r.Fatalf("stream set-up: %d streams of the listed participant with its own certificate were authenticated and served, %d streams refused: the terminator cases were not exercised",
 			r.Get("stream_setup_positive_control"), r.Get("stream_setup_identity/no-connection"))
+	}
+	if r.Get("shared_situations") == 0 || r.Get("shared_participant_served_on_own_connection") == 0 {
+		r.Fatalf("connections sharing a peer ID / node DID: %d situations, %d private payloads served to the participant on its own connection: the shared-identity phase saw no positive case",
+			r.Get("shared_situations"), r.Get("shared_participant_served_on_own_connection"))
 	}
 	if r.Get("create/created") == 0 || r.Get("create/refused") == 0 {
 		r.Fatalf("CreateTransaction: %d created, %d refused: the participant situations were not exercised", r.Get("create/created"), r.Get("create/refused"))
